@@ -11,6 +11,8 @@
      read_solb NN HEX      grid with NN nodes (global i = local i), ref_part_scalar(".solb")
                                                                             -> ok LDIM {X}*(NN*LDIM) | <status>
      read_metric NN HEX    same grid, ref_part_metric(".solb")               -> ok {M}*(NN*6) | <status>
+     robust_name W NAME    suffix dispatch of ref_import_by_extension (W=0), ref_export_by_extension (1),
+                           ref_part_metric (2) on the file name NAME (must start with hcn_; need not exist)
      robust_KIND ...       as read_KIND, or (robust_translate HEX) ref_import_by_extension +
                            ref_export_by_extension like `ref translate`; prints only `returned` when the reader came
                            back with any status (the C20 oracle)
@@ -427,6 +429,25 @@ static void dump_grid(REF_GRID grid) {
   }
 }
 
+/* suffix dispatch of the *_by_extension entry points on a file NAME (heap copy of exact size, so that a
+   read before the string is visible to ASan); the file need not exist.  which: 0 import 1 export 2 metric */
+static void child_name(int which, const char *name) {
+  REF_GRID grid = NULL;
+  REF_STATUS s = REF_SUCCESS;
+  char *n = (char *)malloc(strlen(name) + 1);
+  ob_reset();
+  strcpy(n, name);
+  if (0 == which) {
+    s = ref_import_by_extension(&grid, mpi, n);
+  } else {
+    if (REF_SUCCESS != ref_grid_create(&grid, mpi)) { ob_put("bad-op"); return; }
+    if (1 == which) s = ref_export_by_extension(grid, n);
+    else s = ref_part_metric(ref_grid_node(grid), n);
+  }
+  unlink(n);
+  ob_put(h_status((int)s));
+}
+
 /* kind: 0 read_meshb 1 translate_meshb 2 read_solb 3 read_metric.  Runs in the child. */
 static void child_read(int kind, int nn, const unsigned char *bytes, size_t nb) {
   REF_GRID grid = NULL;
@@ -484,9 +505,18 @@ static void op_read(int kind, int robust) {
   int fd[2], status = 0, nn = 0, hexarg = 1;
   struct rusage ru;
   pid_t pid;
-  unsigned char *bytes;
+  unsigned char *bytes = NULL;
   size_t nb = 0;
   ob_reset();
+  if (kind >= 10) { /* robust_name WHICH NAME */
+    const char *c;
+    if (h_nw != 3 || !is_int(h_w[1]) || h_i(h_w[1]) < 0 || h_i(h_w[1]) > 2 || strlen(h_w[2]) > 40) { ob_put("bad-op"); return; }
+    for (c = h_w[2]; *c; c++)
+      if (!((*c >= 'a' && *c <= 'z') || (*c >= '0' && *c <= '9') || *c == '.' || *c == '_')) { ob_put("bad-op"); return; }
+    if (0 != strncmp(h_w[2], "hcn_", 4)) { ob_put("bad-op"); return; }
+    bytes = NULL;
+    goto spawn;
+  }
   if (kind >= 2) {
     if (h_nw != 3 || !is_int(h_w[1])) { ob_put("bad-op"); return; }
     nn = (int)h_i(h_w[1]);
@@ -495,6 +525,7 @@ static void op_read(int kind, int robust) {
   } else if (h_nw != 2) { ob_put("bad-op"); return; }
   bytes = unhex(h_w[hexarg], &nb);
   if (!bytes) { ob_put("bad-op"); return; }
+spawn:
   if (0 != pipe(fd)) { ob_put("bad-op"); free(bytes); return; }
   fflush(out);
   pid = fork();
@@ -507,7 +538,8 @@ static void op_read(int kind, int robust) {
       rl.rlim_cur = rl.rlim_max = (rlim_t)1 << 30;
       setrlimit(RLIMIT_AS, &rl);
     }
-    child_read(kind, nn, bytes, nb);
+    if (kind >= 10) child_name((int)h_i(h_w[1]), h_w[2]);
+    else child_read(kind, nn, bytes, nb);
     while (w < ob_n) {
       ssize_t r = write(fd[1], ob + w, ob_n - w);
       if (r <= 0) break;
@@ -573,6 +605,7 @@ int main(int argc, char **argv) {
     else if (0 == strcmp(op, "robust_translate")) op_read(1, 1);
     else if (0 == strcmp(op, "robust_solb")) op_read(2, 1);
     else if (0 == strcmp(op, "robust_metric")) op_read(3, 1);
+    else if (0 == strcmp(op, "robust_name")) op_read(10, 1);
     else { ob_reset(); ob_put("bad-op"); }
     fputs(ob_n ? ob : "bad-op", out);
     fputc('\n', out);
